@@ -143,6 +143,9 @@ def build_call(op, rng, H, W):
         spec['kwargs'] = dict(kernel=spec['kernel'], stats_funcs=st)
     elif op == 'hotspots':
         spec['f'] = focal.hotspots; a = _raster(rng, max(H, 3), max(W, 3))[2]
+        if a.dtype.kind == 'f' and rng.random() < 0.35:
+            # plateau: mean large against the spread (single-pass variance formulas cancel catastrophically here)
+            a = (float(rng.choice([2500.0, 900.0, 12000.0])) + rng.uniform(0, 4, a.shape)).astype(a.dtype)
         for _ in range(int(rng.integers(0, 3))):
             y0, x0 = int(rng.integers(0, a.shape[0])), int(rng.integers(0, a.shape[1]))
             a[max(0, y0 - 1):y0 + 2, max(0, x0 - 1):x0 + 2] += a.dtype.type(60)
@@ -287,7 +290,7 @@ def run_pair(rec, op, spec, chunks_list, geom, sname, skw, rng, base_extra=None,
                     m = (kn * w_).sum()
                 if np.isnan(m) or gs == 0:
                     continue
-                z = abs((m - gm) / gs); dz = 64 * E32 * (abs(m) + abs(gm) * np.sqrt(a32.size) + gs) / gs
+                z = abs((m - gm) / gs); dz = 16 * E32 * (abs(m) + abs(gm) * np.log2(a32.size + 2) + gs) / gs
                 band[y, x] = any(abs(z - t_) <= dz for t_ in (1.65, 1.96, 2.58))
         bad = (got != refd) & ~band
         rec.ok('hotspots.cells_compared', int((~band).sum())); rec.dc('hotspots.threshold_band', int(band.sum()))
